@@ -83,10 +83,14 @@ def check_filter(case):
 def check_dedup(case):
     pk = case['pk']
     st, rws, other = mk(case['rows'], pk)
-    label = 'deduplicate() with primaryKey %r on %r%s' % (pk, case['rows'], ' applied twice' if case.get('twice') else '')
-    steps = [core.dataflows.deduplicate(resources='t')]
+    sel = None if case.get('all') else 't'
+    label = 'deduplicate(resources=%r) with primaryKey %r on %r%s' % (sel, pk, case['rows'], ' applied twice' if case.get('twice') else '')
+    steps = [core.dataflows.deduplicate(resources=sel)]
     if case.get('twice'):
-        steps.append(core.dataflows.deduplicate(resources='t'))
+        steps.append(core.dataflows.deduplicate(resources=sel))
+    if case.get('all'):
+        # every resource is de-duplicated on its own: 'other' holds two rows with a = b = 1 (keys that also occur in 't')
+        other = other[:1] if pk else other
     kind, out = run_steps(st, *steps)
     if kind == 'exc':
         return [('raises/deduplicate', '%s raises %s: %s' % (label, core.exc_sig(out), str(out)[:80]))], 'violated', True
@@ -177,6 +181,7 @@ def cases(tier):
                 out.append({'proc': 'dedup', 'rows': rows, 'pk': pk})
                 if len(rows) <= 3:
                     out.append({'proc': 'dedup', 'rows': rows, 'pk': pk, 'twice': True})
+                    out.append({'proc': 'dedup', 'rows': rows, 'pk': pk, 'all': True})
     fieldsets = []
     for n in (2, 3, 4, 5):
         for fs in itertools.combinations(UFIELDS, n):
